@@ -15,7 +15,7 @@ STEPS = {
 
 def mboxops_jobs(prop, tier):
     q = tier == "quick"
-    T = 300 if q else 1200
+    T = 600 if q else 1200
     js = []
 
     def add(name, fn, **params):
@@ -42,8 +42,8 @@ def mboxops_jobs(prop, tier):
             for kg in shapes:
                 add(f"pack_step[n={n},k={''.join(map(str, kg))}]", "pack_step", n=n, kgaps=kg)
     if "store_step" in steps:
-        xs = ["Deleted"] if q else ["Deleted", "replied", "flagged", "Draft", "kw"]
-        for n in ([2] if q else [1, 2, 3]):
+        xs = ["Deleted"] if q else ["Deleted", "flagged", "kw"]
+        for n in ([2] if q else [2, 3]):
             for x in xs:
                 for action in (0, 1, 2):
                     for fs in range(9):
